@@ -250,3 +250,43 @@ Proof. vm_compute. reflexivity. Qed.
 Definition ex_img_blank : bytes := put 64 [7] ex_img.
 Example ex_blank_field_is_zeroed : obytes_eqb (run 0 ex_img_blank) (Ok ex_img) = true.
 Proof. vm_compute. reflexivity. Qed.
+
+(* ---------------------------------------------------------------------------------------- *)
+(* Kernel ties: the flash-descriptor kernels of pkg/uefi this property rests on, as TRANSCRIBED FROM THE GO SOURCE on every run
+   (translator/Kernels.sh -> Gen/GoKernels.v), equal the functions of the model (Proofs/KernelTieFlash.v).
+   A change of one of these Go functions breaks the lemma. *)
+From Fiano Require Import Base.Bytes Base.GoInt Gen.GoKernels Proofs.KernelTieFlash.
+Local Open Scope Z_scope.
+
+Theorem C12_kernel_FlashRegion_Valid :
+  forall base limit, go_FlashRegion_Valid limit base = TightenMe.fr_valid (TightenMe.mkFR base limit).
+Proof. exact go_FlashRegion_Valid_tie. Qed.
+Print Assumptions C12_kernel_FlashRegion_Valid.
+
+Theorem C12_kernel_FlashRegion_BaseOffset :
+  forall base limit, 0 <= base < 65536 ->
+  go_FlashRegion_BaseOffset base = TightenMe.base_off (TightenMe.mkFR base limit).
+Proof. exact go_FlashRegion_BaseOffset_tie. Qed.
+Print Assumptions C12_kernel_FlashRegion_BaseOffset.
+
+Theorem C12_kernel_FlashRegion_EndOffset :
+  forall base limit, 0 <= limit < 65536 ->
+  go_FlashRegion_EndOffset limit = TightenMe.end_off (TightenMe.mkFR base limit).
+Proof. exact go_FlashRegion_EndOffset_tie. Qed.
+Print Assumptions C12_kernel_FlashRegion_EndOffset.
+
+Theorem C12_kernel_MEPartitionEntry_OffsetIsValid :
+  forall o, go_MEPartitionEntry_OffsetIsValid o = TightenMe.offset_is_valid o.
+Proof. exact go_MEPartitionEntry_OffsetIsValid_tie. Qed.
+Print Assumptions C12_kernel_MEPartitionEntry_OffsetIsValid.
+
+Theorem C12_kernel_IsErased :
+  forall buf pol, go_IsErased buf pol = TightenMe.is_erased buf pol.
+Proof. exact go_IsErased_flash_tie. Qed.
+Print Assumptions C12_kernel_IsErased.
+
+Theorem C12_kernel_FindSignature :
+  forall b, go_FindSignature b = TightenMe.find_signature b.
+Proof. exact go_FindSignature_tie. Qed.
+Print Assumptions C12_kernel_FindSignature.
+
